@@ -152,10 +152,15 @@ impl Monitor for C02 {
             r.inconclusive(format!("{} position keys the monitor cannot attribute", s.unknown_pos_keys));
             return;
         }
-        if !matches!(st.op, Op::Engine { .. }) {
+        // the equality is checked after EVERY transaction (also direct calls to the vAMM by anyone);
+        // coverage statistics below are kept for engine operations only
+        let is_engine = matches!(st.op, Op::Engine { .. });
+        if matches!(st.op, Op::Advance { .. } | Op::Oracle { .. }) {
             return;
         }
-        r.eval();
+        if is_engine {
+            r.eval();
+        }
         for (i, v) in s.vamms.iter().enumerate() {
             let sum: i128 = s.pos.iter().filter(|p| p.vamm == i).map(|p| p.size).sum();
             // the equality must hold after every transaction; a discrepancy is attributed to the
@@ -171,6 +176,12 @@ impl Monitor for C02 {
                     st.seq,
                 );
             }
+        }
+        if !is_engine {
+            if matches!(st.op, Op::Vamm { .. }) {
+                r.count("direct-vamm-calls-checked");
+            }
+            return;
         }
         let path = reply_path(w, &st.out);
         let side = match &st.op {
